@@ -1930,9 +1930,15 @@ fn drive_run(run: &mut Run, rng: &mut Rng, regime: &str, steps: usize) {
 fn child_drive(a: &Args, name: &str, excl: &Excl) -> Value {
     let rng0 = Rng::new(a.seed).derive(name);
     let regimes: Vec<(&str, usize, usize)> = if a.thorough() {
-        vec![("mixed", 120, 40), ("churn", 120, 30), ("exhaust", 260, 6), ("adjacent", 10, 20)]
+        vec![("mixed", 120, 40), ("churn", 120, 30), ("exhaust", 260, 6), ("adjacent", 10, 10)]
     } else {
         vec![("mixed", 50, 3), ("churn", 50, 2), ("exhaust", 120, 1), ("adjacent", 5, 2)]
+    };
+    // quick tier: the 35 five-level subjects share their code paths pairwise (no contents to re-read): fewer runs each
+    let regimes: Vec<(&str, usize, usize)> = if !a.thorough() && fam_of(name).starts_with("fl_") {
+        vec![("mixed", 50, 2), ("churn", 50, 1), ("exhaust", 120, 1), ("adjacent", 5, 1)]
+    } else {
+        regimes
     };
     let mut tot = Counts::default();
     let mut runs = 0usize;
